@@ -135,10 +135,11 @@ pub fn drops() -> u16 { unsafe { DROPS } }
 // allocation counter (used with `#[kani::stub(std::alloc::alloc, crate::rt::counted_alloc)]`)
 // ---------------------------------------------------------------------------------------------
 pub static mut ALLOCS: usize = 0;
-pub unsafe fn counted_alloc(layout: std::alloc::Layout) -> *mut u8 { ALLOCS += 1; std::alloc::alloc_zeroed(layout) }
+// (the stubs go to the System allocator directly: every std::alloc entry point is itself stubbed)
+pub unsafe fn counted_alloc(layout: std::alloc::Layout) -> *mut u8 { ALLOCS += 1; std::alloc::GlobalAlloc::alloc_zeroed(&std::alloc::System, layout) }
 pub unsafe fn counted_realloc(ptr: *mut u8, layout: std::alloc::Layout, new_size: usize) -> *mut u8 {
     ALLOCS += 1;
-    let new = std::alloc::alloc_zeroed(std::alloc::Layout::from_size_align_unchecked(new_size, layout.align()));
+    let new = std::alloc::GlobalAlloc::alloc_zeroed(&std::alloc::System, std::alloc::Layout::from_size_align_unchecked(new_size, layout.align()));
     let n = if layout.size() < new_size { layout.size() } else { new_size };
     core::ptr::copy_nonoverlapping(ptr, new, n);
     new
@@ -299,3 +300,11 @@ pub fn t_set_name_bytes(b: &[u8; 3], plen: usize) {
     while i < plen { m.push(b[i]); i += 1; }
     std::thread::set_current_name(Some(m));
 }
+
+// ---------------------------------------------------------------------------------------------
+// C19: allocation stubs and a !Send, !Sync, move-only value
+// ---------------------------------------------------------------------------------------------
+pub unsafe fn counted_alloc_zeroed(layout: std::alloc::Layout) -> *mut u8 { ALLOCS += 1; std::alloc::GlobalAlloc::alloc_zeroed(&std::alloc::System, layout) }
+#[derive(Debug, PartialEq)]
+pub struct NoSend(pub u8, pub core::marker::PhantomData<*const ()>);
+pub fn nosend(v: u8) -> NoSend { NoSend(v, core::marker::PhantomData) }
